@@ -8,7 +8,7 @@
     reachable from the empty tree by SOME interleaving of the calls [ops]
     (every schedule, no bound on the number of threads or steps). *)
 From Gnmi Require Import Base.Prelude CTree.CTreeModel CTree.CTreeCheck CTree.CTreeConc
-  CTree.CTreeConcProofs CTree.LinCheck CTree.C10Check.
+  CTree.CTreeConcProofs CTree.CTreeConcLin CTree.LinCheck CTree.C10Check.
 
 (** lock coupling: a tree operation that holds any lock holds the root lock *)
 Theorem C10_lock_coupling :
@@ -86,6 +86,33 @@ Theorem C10_concurrent_adds_survive :
 Proof. exact concurrent_adds_survive. Qed.
 Print Assumptions C10_concurrent_adds_survive.
 
+(** linearization points (proved part of linearizable_point_ops): for ALL
+    programs -- Deletes and handle updates included -- and all interleavings,
+    a Get or an Add that has walked part of its path stands on the node that
+    this prefix leads to in the CURRENT tree *)
+Theorem C10_linearizable_point_ops_partial :
+  forall ops s i t p t0 p',
+    reach ops s -> nth_error (thr s) i = Some t -> walk_pos t = Some (p, t0, p') ->
+    exists pre, p = pre ++ p' /\ resolve (hp s) 0 pre = Some t0.
+Proof. exact point_ops_on_current_node. Qed.
+Print Assumptions C10_linearizable_point_ops_partial.
+
+(** Get's final read is of the node stored at its path at that moment *)
+Theorem C10_get_reads_current_node :
+  forall ops s i t p t0,
+    reach ops s -> nth_error (thr s) i = Some t ->
+    top t = CGetVal p -> tpc t = PGetRead t0 [] -> resolve (hp s) 0 p = Some t0.
+Proof. exact get_reads_current_node. Qed.
+Print Assumptions C10_get_reads_current_node.
+
+(** Add's write goes to the node stored at its path at that moment *)
+Theorem C10_add_writes_current_node :
+  forall ops s i t p v t0 v',
+    reach ops s -> nth_error (thr s) i = Some t ->
+    top t = CAdd p v -> tpc t = PAddTCrit t0 v' -> resolve (hp s) 0 p = Some t0.
+Proof. exact add_writes_current_node. Qed.
+Print Assumptions C10_add_writes_current_node.
+
 (** the executable linearizability checker is sound (this is K_P) *)
 Theorem C10_lin_check_sound :
   forall (St Op Rt : Type) (sstep : St -> Op -> Rt -> list St) (pure : Op -> Rt -> bool) (s0 : St)
@@ -110,7 +137,9 @@ Print Assumptions C10_window_check_linearizable.
        linearizable (flat specification of C09) [] (history of the run) (abs (hp s) = .)
    with linearization points: the write step of Add (PAddTCrit / the inserting
    PAddSlow), the final read of Get, the critical section of Delete.
-   Proved parts: C10_delete_atomic (Delete's point is exclusive),
+   Proved parts: C10_linearizable_point_ops_partial with its two corollaries
+   (Get's final read and Add's write act on the node currently stored at the
+   path), C10_delete_atomic (Delete's point is exclusive),
    C10_upgrade_recheck + C10_concurrent_adds_survive (Add's effect is never
    undone by another Add), C10_no_data_race (every point is a guarded access).
    quiescent_serializable and query_stability over the LTS: not proved; they
